@@ -1,7 +1,7 @@
 """C06 - formatting refreshes link titles and never retargets or rewrites a link."""
 from vlib import factbase as fb
 from vlib import q
-from .common import ctx, loc, match_arms_on, strip_refs
+from .common import pname, ctx, loc, match_arms_on, strip_refs
 from . import c05
 
 TITLE_LOOKUPS = ("InlinesContext::get_ref_title", "GraphContext::get_ref_text", "Graph::get_key_title")
@@ -194,7 +194,7 @@ def rule_r2(facts, rep, rid="C06-R2"):
             rep.violation(rid, "%s|reference-url-relative-to-parent|%d" % (p.def_, n), "block reference url is not `ref_key2().to_rel_link_url(&self.parent)`: %s" % fb.show(call["args"][0])[:120], loc(p, call))
     w = facts.fn("Projector::with")
     pr = facts.fn("Projector::project")
-    for fn_, src in ((w, ("field", "parent")), (pr, ("param", "parent"))):
+    for fn_, src in ((w, ("field", "parent")), (pr, ("param", pname(pr, 1)))):
         cc = ctx(fn_)
         okp = False
         for x in fb.walk(fn_.body):
@@ -226,7 +226,7 @@ def rule_r3(facts, rep, rid="C06-R3"):
     for x in fb.walk(fm.body):
         if x.get("k") == "mcall" and x["name"] == "insert" and x["recv"].get("k") == "field" and x["recv"]["name"] == "keys_to_ref_text":
             pv = cm.vprov(x["args"][0])
-            if ("param", "key") in pv:
+            if ("param", pname(fm, 1)) in pv:
                 rep.ok(rid, fm.def_ + "|title-cached-under-own-key", "", loc(fm, x))
             else:
                 rep.violation(rid, fm.def_ + "|title-cached-under-own-key", "title cached under a key that is not the updated note's key: %s" % sorted(pv), loc(fm, x))
